@@ -221,11 +221,11 @@ func seqD(v ssa.Value, depth int, inprog map[ssa.Value]bool) ([]SeqElem, bool) {
 		return []SeqElem{{Kind: "spread", D: desc(x), V: x}}, true
 	case *ssa.Call:
 		if isCallTo(x, "builtin:append") {
-			base, ok := seqD(x.Call.Args[0], depth+1, inprog)
+			base, ok := seqD(callArgs(x)[0], depth+1, inprog)
 			if !ok {
 				return nil, false
 			}
-			tail, ok := seqTail(x.Call.Args[1], depth+1, inprog)
+			tail, ok := seqTail(callArgs(x)[1], depth+1, inprog)
 			if !ok {
 				return nil, false
 			}
@@ -236,8 +236,8 @@ func seqD(v ssa.Value, depth int, inprog map[ssa.Value]bool) ([]SeqElem, bool) {
 			return []SeqElem{{Kind: "star", Sub: []SeqElem{{Kind: "elem", D: "rangekey(" + desc(m) + ")"}}}}, true
 		}
 		// slices.Concat(a, b, c): the concatenation of its arguments' sequences
-		if n := calleeName(x); n == "slices.Concat" && len(x.Call.Args) == 1 {
-			parts, ok := seqD(x.Call.Args[0], depth+1, inprog)
+		if n := calleeName(x); n == "slices.Concat" && len(callArgs(x)) == 1 {
+			parts, ok := seqD(callArgs(x)[0], depth+1, inprog)
 			if !ok {
 				return nil, false
 			}
@@ -430,11 +430,11 @@ func seqOfMake(ms *ssa.MakeSlice) ([]SeqElem, bool) {
 				}
 			}
 			for _, rr := range referrersOf(u) {
-				if c, ok := rr.(*ssa.Call); ok && isCallTo(c, "builtin:copy") && c.Call.Args[0] == u {
+				if c, ok := rr.(*ssa.Call); ok && isCallTo(c, "builtin:copy") && callArgs(c)[0] == u {
 					if instrDead(c) {
 						continue
 					}
-					src := c.Call.Args[1]
+					src := callArgs(c)[1]
 					// copy fills min(len(dst), len(src)); require len(dst) == len(src)
 					if hi.add(lo.scale(-1)).String() != affSym("len("+desc(src)+")").String() {
 						return nil, false
@@ -479,7 +479,7 @@ func seqOfMake(ms *ssa.MakeSlice) ([]SeqElem, bool) {
 
 // substArgs rewrites a callee-relative descriptor into the caller's terms: "arg#k" -> desc(actual k).
 func substArgs(d string, call ssa.CallInstruction) string {
-	args := call.Common().Args
+	args := callArgs(call)
 	if call.Common().IsInvoke() {
 		args = append([]ssa.Value{call.Common().Value}, args...)
 	}
